@@ -773,3 +773,46 @@ TWINS["C13_twin_negated_switch"] = ("C13", [(D, """                        if co
                             raise TypeCheckError(msg) from None
 
                 # Actually""")])
+
+# ---- variants modelled on independent sub-agent seeds (see /verif/seeded/)
+SEEDS["C16_skip_already_seen_leaf_objects"] = ("C16", [(P, """        for leaf_index, leaf in enumerate(leaves):
+            if cls.structure is None:""", """        checked_ids = set()
+        for leaf_index, leaf in enumerate(leaves):
+            if id(leaf) in checked_ids:
+                continue
+            checked_ids.add(id(leaf))
+            if cls.structure is None:""")], "C16.6")
+SEEDS["C12_flag_context_manager_without_finally"] = ("C12", [(S, """def set_treeflatten_memo():
+    _treeflatten_storage.value = True
+""", """def set_treeflatten_memo():
+    _treeflatten_storage.value = True
+
+
+import contextlib
+
+
+@contextlib.contextmanager
+def treeflatten_memo():
+    was_flattening = get_treeflatten_memo()
+    _treeflatten_storage.value = True
+    yield
+    _treeflatten_storage.value = was_flattening
+""")], "C12.1")
+TWINS["C12_twin_flag_context_manager_with_finally"] = ("C12", [(S, """def set_treeflatten_memo():
+    _treeflatten_storage.value = True
+""", """def set_treeflatten_memo():
+    _treeflatten_storage.value = True
+
+
+import contextlib
+
+
+@contextlib.contextmanager
+def treeflatten_memo():
+    was_flattening = get_treeflatten_memo()
+    _treeflatten_storage.value = True
+    try:
+        yield
+    finally:
+        _treeflatten_storage.value = was_flattening
+""")])
